@@ -251,6 +251,54 @@ def eq_literal(lits, wr_call, const):
     return False
 
 
+def canon(items):
+    """merge consecutive RAW items into byte runs: the stream's grammar does not depend on how many calls emit a run.
+    -> [{"kind": "raw", "bytes": total, "content": [(abs off, size, term)], "parts": [(abs off, size, call)]} | {"kind": "delegate", ...}]"""
+    out = []
+    for it in items:
+        if it["kind"] == "raw":
+            if not out or out[-1]["kind"] != "raw":
+                out.append({"kind": "raw", "bytes": 0, "content": [], "parts": [], "unknown_content": False})
+            run = out[-1]
+            base = run["bytes"]
+            if it.get("content") is None and "content" in it:
+                run["unknown_content"] = True
+            for (o, sz, t) in (it.get("content") or []):
+                run["content"].append((base + o, sz, ir.ungate(t)))
+            run["parts"].append((base, it["bytes"], it["call"]))
+            run["bytes"] += it["bytes"]
+        else:
+            out.append(dict(it))
+    return out
+
+
+def run_word(run, off):
+    """the 4-byte constant written at byte `off` of a run, or None"""
+    for (o, sz, t) in run["content"]:
+        if o == off and sz == 4 and t[0] == 'ci':
+            return t[1]
+    return None
+
+
+def run_read_at(run, off, size=4):
+    """(call index, offset within that read) of the read covering [off, off+size) of a reader run"""
+    for (o, sz, c) in run["parts"]:
+        if o <= off and off + size <= o + sz:
+            return c.n, off - o
+    return None, None
+
+
+def summarise(segs):
+    out = []
+    for sg in segs:
+        if sg["kind"] == "raw":
+            consts = ",".join("%d:0x%X" % (o, t[1]) for (o, sz, t) in sorted(sg["content"]) if t[0] == 'ci' and sz == 4)
+            out.append("RAW(%d)%s" % (sg["bytes"], "{%s}" % consts if consts else ""))
+        else:
+            out.append(sg["kind"].upper())
+    return out
+
+
 class Grammar:
     """facts of one writer/reader pair"""
 
@@ -263,18 +311,13 @@ class Grammar:
         self.sr = ir.Sym(hr.func, epochs=True)
         self.W = writer_items(self.sw, hw.module, hw.meta["stream"])
         self.R = reader_items(self.sr)
+        self.Wc = canon(self.W)
+        self.Rc = canon(self.R)
         self.outs = {k: ir.ungate(v) for k, v in self.sr.outputs(hr.out_index).items()}
         self.ret_lits = [list(ir.common_lits(c)) for c, _ in self.sr.ret_cond]
 
     def summary(self):
-        def f(it):
-            if it["kind"] == "raw":
-                c = it.get("content")
-                if c and len(c) == 1 and c[0][2][0] == 'ci':
-                    return "RAW(%d)=0x%X" % (it["bytes"], c[0][2][1])
-                return "RAW(%d)" % it["bytes"]
-            return it["kind"].upper()
-        return {"W": [f(i) for i in self.W], "R": [f(i) for i in self.R]}
+        return {"W": summarise(self.Wc), "R": ["RAW(%d)" % sg["bytes"] if sg["kind"] == "raw" else sg["kind"].upper() for sg in self.Rc]}
 
 
 def build_pairs(specs, tag, ndebug=True):
